@@ -33,7 +33,7 @@ impl Monitor for C12 {
 		"C12"
 	}
 	fn rule(&self) -> String {
-		"C01's replay space (small/medium histories; every 5th generated replay also carries unknown events with 2..600-byte payloads); the incremental API (parse_header, parse_start, parse_event per call, parse_metadata) is driven (with the options argument rotating over None / default / skip_frames / compute_hash - none may matter on this path) over the instrumented source under schedules {whole, 1-byte, fixed 2/3/7/64 and one drawn from {4..17, 255..257, 512, 8192}, random 1..4, random 1..200, whole reads with every k-th call answered by ErrorKind::Interrupted, two-piece splits: ALL for every 6th file <= 2.5 KB in quick and every 2nd file <= 8 KB in thorough, else 32 random}. Online monitor after EVERY call: bytes_read() == bytes delivered by the counting source - 15 (header); row count never decreases; the completed rows (rows closed by Frame End >= 3.0; all but the open row otherwise) equal, column by column, the same prefix of the one-shot game (checked at every event for the newest completed row and in full at end of stream). Final: start/end/metadata/gecko via the Game trait equal the one-shot result. For a doubled Game End every other schedule keeps calling parse_event until the declared raw length is used up (the second Game End is an event like any other). Truncated streams: each file is also cut at up to 13 points inside the raw element (after the code byte / in the middle / one byte short of every unknown event's payload, plus 4 random points) and driven the same way: every call that returns Ok must account for exactly the bytes delivered and the run must end in an error. One evaluation = one (file, schedule) run. distinct = workload classes x schedule; counters give calls monitored.".into()
+		"C01's replay space (small/medium histories; every 5th generated replay also carries unknown events with 2..600-byte payloads); the incremental API (parse_header, parse_start, parse_event per call, parse_metadata) is driven (with the options argument rotating over None / default / skip_frames / compute_hash - none may matter on this path) over the instrumented source under schedules {whole, 1-byte, fixed 2/3/7/64 and one drawn from {4..17, 255..257, 512, 8192}, random 1..4, random 1..200, whole reads with every k-th call answered by ErrorKind::Interrupted, two-piece splits: ALL for every 6th file <= 2.5 KB in quick and every 2nd file <= 8 KB in thorough, else 32 random}. Online monitor after EVERY call: bytes_read() == bytes delivered by the counting source - 15 (header); row count never decreases; the completed rows (rows closed by Frame End >= 3.0; all but the open row otherwise) equal, column by column, the same prefix of the one-shot game (checked at every event for the newest completed row and in full at end of stream). Final: start/end/metadata/gecko via the Game trait equal the one-shot result. For a doubled Game End every other schedule keeps calling parse_event until the declared raw length is used up (the second Game End is an event like any other). Truncated streams: each file is also cut at up to 13 points inside the raw element (after the code byte / in the middle / one byte short of every unknown event's payload, plus 4 random points) and driven the same way: every call that returns Ok must account for exactly the bytes delivered and the run must end in an error. Interleaved parsing: every third file is also parsed event by event alternately with a generated sibling (same version and ports, or another version; own frames, gecko list and metadata) on the same thread, one call each in turn; both final states must equal their own one-shot games. One evaluation = one (file, schedule) run. distinct = workload classes x schedule; counters give calls monitored.".into()
 	}
 	fn assumptions(&self) -> Vec<String> {
 		vec!["the one-shot reader is the reference for the final game (itself checked against the independent model by C03/C04)".into(), "before v3.0 nothing in the stream closes the last frame, so the last row is only compared when it is materially complete".into()]
@@ -166,58 +166,7 @@ impl Monitor for C12 {
 			});
 			match r {
 				Ok(st) => {
-					// final comparison
-					if !common::same_start(st.start(), &one.start) {
-						problems.push(("final-start".into(), "final start differs".into()));
-					}
-					if st.end() != &one.end {
-						problems.push(("final-end".into(), "final end differs".into()));
-					}
-					if st.metadata() != &one.metadata {
-						problems.push(("final-metadata".into(), "final metadata differs".into()));
-					}
-					if st.gecko_codes() != &one.gecko_codes {
-						problems.push(("final-gecko".into(), "final gecko codes differ".into()));
-					}
-					let mc = view::cols_mut(st.frames());
-					let mut n = one_cols.rows;
-					if !closes_on_end && n > 0 {
-						// last row is open: comparable only if every column already has n entries
-						let complete = mc.leaves.iter().all(|(p, (_, v))| p.starts_with("item.") || v.len() == n);
-						if !complete {
-							n -= 1;
-						}
-					}
-					let (a, b) = (truncate_cols(&mc, n), truncate_cols(&one_cols, n));
-					if a.rows != b.rows {
-						problems.push(("final-rows".into(), format!("incremental has {} rows, one-shot {}", mc.rows, one_cols.rows)));
-					}
-					for (path, (ty, vals)) in &b.leaves {
-						match a.leaves.get(path) {
-							Some((t2, v2)) if t2 == ty && cols_equal_where_present(&b, path, vals, v2) => {}
-							Some(_) => {
-								problems.push(("final-column-differs".into(), format!("column {} differs between incremental and one-shot", path)));
-								break;
-							}
-							None => {
-								problems.push(("final-column-missing".into(), format!("column {} missing in incremental state", path)));
-								break;
-							}
-						}
-					}
-					for (path, v) in &b.validity {
-						if path.ends_with(".leader") || path.ends_with(".follower") {
-							let want = v.clone().unwrap_or_else(|| vec![true; b.rows]);
-							let got = a.validity.get(path).cloned().flatten().unwrap_or_else(|| vec![true; a.rows]);
-							if want != got {
-								problems.push(("final-presence-differs".into(), format!("presence of {} differs", path)));
-							}
-						}
-					}
-					if a.item_offsets.as_ref().map(|o| o.len()) == b.item_offsets.as_ref().map(|o| o.len()) && a.item_offsets != b.item_offsets {
-						problems.push(("final-item-offsets".into(), "item offsets differ".into()));
-					}
-					let _ = truncate_expected;
+					compare_final(&st, &one, &one_cols, closes_on_end, &mut problems);
 				}
 				Err(f) => problems.push((format!("incremental-failed;{}", f.sig()), f.text())),
 			}
@@ -278,12 +227,164 @@ impl Monitor for C12 {
 			}
 			out.class("truncated-streams".to_string());
 		}
+		// Interleaved parsing: this replay and a generated sibling (same version and ports, other
+		// frames and gecko/metadata of its own), and this replay and a replay of another version, are
+		// driven alternately, one call each, on this thread; each must equal its own one-shot game.
+		if !big && idx % 3 == 0 && out.violations.is_empty() {
+			let mut r4 = crate::rng::Rng::derive(ctx.seed, 0xC12E ^ idx as u64);
+			let other_ver = *r4.pick(&[(0u8, 1u8, 0u8), (1, 0, 0), (2, 0, 1), (2, 2, 0), (3, 0, 0), (3, 7, 0), (3, 16, 0)]);
+			let ver = if (idx / 3) % 2 == 0 { truth.version } else { other_ver };
+			let sib = common::sibling_game(ver, &truth.start, 2 + idx % 9, &mut r4).map(|mut b| {
+				if (idx / 6) % 2 == 0 {
+					// give the sibling a gecko list and metadata of its own where the version has them
+					if let Ok(m) = crate::model::parse(&b) {
+						let mut s2 = crate::gen::base_spec(ver, common::spec_ports(&m.start), 2 + idx % 9);
+						if crate::spec::gte((ver.0, ver.1), (3, 3)) {
+							s2.gecko_blocks = 1 + idx % 3;
+							s2.gecko_tail = idx % 500;
+						}
+						s2.metadata = Some(crate::gen::gen_meta(&mut r4, 1, 3));
+						b = crate::gen::build(&s2, &mut r4).bytes;
+					}
+				}
+				b
+			});
+			if let Some(sib) = sib {
+				if let Ok(one_b) = common::slp_read(&sib, false, false) {
+					out.evals += 1;
+					match interleaved(&bytes, &sib) {
+						Ok((sa, sb, calls)) => {
+							calls_monitored += calls;
+							let mut pa: Vec<(String, String)> = vec![];
+							compare_final(&sa, &one, &one_cols, closes_on_end, &mut pa);
+							let ob_cols = view::cols_imm(&one_b.frames);
+							let mut pb: Vec<(String, String)> = vec![];
+							compare_final(&sb, &one_b, &ob_cols, crate::spec::gte((ver.0, ver.1), (3, 0)), &mut pb);
+							for (sig, d) in pa.into_iter().chain(pb.into_iter()).take(2) {
+								out.violate(format!("{};interleaved", sig), format!("{} parsed event by event, interleaved with another replay (v{}.{}.{}) on the same thread: {}", desc, ver.0, ver.1, ver.2, d), Some(&bytes));
+							}
+							out.count("interleaved_pairs_equal_to_their_one_shot_games", 1);
+						}
+						Err(common::Fail::Panic(p)) => out.violate(format!("interleaved-panic;{}", crate::driver::norm_msg(&p.msg)), format!("{} interleaved with another replay: panic at {}: {}", desc, p.loc, p.msg), Some(&bytes)),
+						Err(f) => out.violate(format!("interleaved-failed;{}", f.sig()), format!("{} interleaved with another replay (v{}.{}.{}): {}", desc, ver.0, ver.1, ver.2, f.text()), Some(&bytes)),
+					}
+					out.class(format!("interleaved|{}", if ver == truth.version { "same-version-sibling" } else { "other-version" }));
+				}
+			}
+		}
 		out.count("calls_monitored", calls_monitored);
 		if idx % 50 == 0 {
 			out.sample = Some(json!({"case": idx, "input": desc, "schedules": policies.len(), "two_piece_splits_exhaustive": all_splits, "incremental_calls_monitored": calls_monitored}));
 		}
 		out
 	}
+}
+
+/// Two replays parsed event by event on ONE thread, their calls interleaved (A's event, B's event,
+/// A's event, ...): whatever the library keeps outside the two `ParseState` values would mix.
+fn interleaved(a: &[u8], b: &[u8]) -> Result<(peppi::io::slippi::de::ParseState, peppi::io::slippi::de::ParseState, u64), common::Fail> {
+	use crate::driver::guard;
+	use peppi::io::slippi::de;
+	use std::io::Read;
+	fn flat<T>(r: Result<Result<T, peppi::io::Error>, crate::driver::Panic>) -> Result<T, common::Fail> {
+		match r {
+			Ok(Ok(v)) => Ok(v),
+			Ok(Err(e)) => Err(common::Fail::Err(e.to_string())),
+			Err(p) => Err(common::Fail::Panic(p)),
+		}
+	}
+	let (mut ra, mut rb) = (std::io::Cursor::new(a), std::io::Cursor::new(b));
+	let la = flat(guard(|| de::parse_header(&mut ra, None)))? as usize;
+	let lb = flat(guard(|| de::parse_header(&mut rb, None)))? as usize;
+	let mut sa = flat(guard(|| de::parse_start(&mut ra, None)))?;
+	let mut sb = flat(guard(|| de::parse_start(&mut rb, None)))?;
+	let (mut da, mut db, mut calls) = (false, false, 0u64);
+	while !(da && db) {
+		if !da {
+			if la > 0 && sa.bytes_read() >= la {
+				da = true;
+			} else {
+				da = flat(guard(|| de::parse_event(&mut ra, &mut sa, None)))? == 0x39;
+				calls += 1;
+			}
+		}
+		if !db {
+			if lb > 0 && sb.bytes_read() >= lb {
+				db = true;
+			} else {
+				db = flat(guard(|| de::parse_event(&mut rb, &mut sb, None)))? == 0x39;
+				calls += 1;
+			}
+		}
+	}
+	for (r, st, l) in [(&mut ra, &mut sa, la), (&mut rb, &mut sb, lb)] {
+		if st.bytes_read() < l {
+			let want = (l - st.bytes_read()) as u64;
+			let _ = std::io::copy(&mut Read::take(&mut *r, want), &mut std::io::sink());
+		}
+		let mut c = [0u8; 1];
+		r.read_exact(&mut c).map_err(|e| common::Fail::Err(e.to_string()))?;
+		if c[0] == 0x55 {
+			flat(guard(|| de::parse_metadata(&mut *r, &mut *st, None)))?;
+		}
+	}
+	Ok((sa, sb, calls))
+}
+
+/// Final comparison of an incremental parse state with the one-shot game of the same bytes.
+fn compare_final(st: &peppi::io::slippi::de::ParseState, one: &peppi::game::immutable::Game, one_cols: &view::Cols, closes_on_end: bool, problems: &mut Vec<(String, String)>) {
+	// final comparison
+	if !common::same_start(st.start(), &one.start) {
+		problems.push(("final-start".into(), "final start differs".into()));
+	}
+	if st.end() != &one.end {
+		problems.push(("final-end".into(), "final end differs".into()));
+	}
+	if st.metadata() != &one.metadata {
+		problems.push(("final-metadata".into(), "final metadata differs".into()));
+	}
+	if st.gecko_codes() != &one.gecko_codes {
+		problems.push(("final-gecko".into(), "final gecko codes differ".into()));
+	}
+	let mc = view::cols_mut(st.frames());
+	let mut n = one_cols.rows;
+	if !closes_on_end && n > 0 {
+		// last row is open: comparable only if every column already has n entries
+		let complete = mc.leaves.iter().all(|(p, (_, v))| p.starts_with("item.") || v.len() == n);
+		if !complete {
+			n -= 1;
+		}
+	}
+	let (a, b) = (truncate_cols(&mc, n), truncate_cols(&one_cols, n));
+	if a.rows != b.rows {
+		problems.push(("final-rows".into(), format!("incremental has {} rows, one-shot {}", mc.rows, one_cols.rows)));
+	}
+	for (path, (ty, vals)) in &b.leaves {
+		match a.leaves.get(path) {
+			Some((t2, v2)) if t2 == ty && cols_equal_where_present(&b, path, vals, v2) => {}
+			Some(_) => {
+				problems.push(("final-column-differs".into(), format!("column {} differs between incremental and one-shot", path)));
+				break;
+			}
+			None => {
+				problems.push(("final-column-missing".into(), format!("column {} missing in incremental state", path)));
+				break;
+			}
+		}
+	}
+	for (path, v) in &b.validity {
+		if path.ends_with(".leader") || path.ends_with(".follower") {
+			let want = v.clone().unwrap_or_else(|| vec![true; b.rows]);
+			let got = a.validity.get(path).cloned().flatten().unwrap_or_else(|| vec![true; a.rows]);
+			if want != got {
+				problems.push(("final-presence-differs".into(), format!("presence of {} differs", path)));
+			}
+		}
+	}
+	if a.item_offsets.as_ref().map(|o| o.len()) == b.item_offsets.as_ref().map(|o| o.len()) && a.item_offsets != b.item_offsets {
+		problems.push(("final-item-offsets".into(), "item offsets differ".into()));
+	}
+	let _ = truncate_expected;
 }
 
 /// Is the character owning field `key` (row-view path) present at row i?
